@@ -573,6 +573,23 @@ static void parseEmit(void *inFrame, lltd_iface_state *st, void *iface_ctx) {
     int numDescs = (int)lltd_ntohs(emitHeader->numDescs);
     uint16_t offsetEmitee = 0;
 
+    /*
+     * The receive buffer holds one MTU and the core is not told the frame
+     * length: never walk descriptors beyond what an MTU-sized frame can carry
+     * (none at all when the MTU cannot be obtained).
+     */
+    size_t mtu = 0;
+    if (lltd_port_get_mtu(iface_ctx, &mtu) != 0) {
+        mtu = 0;
+    }
+    size_t maxDescs = 0;
+    if (mtu > sizeof(*lltdHeader) + sizeof(*emitHeader)) {
+        maxDescs = (mtu - sizeof(*lltdHeader) - sizeof(*emitHeader)) / sizeof(emitee_descs);
+    }
+    if ((size_t)numDescs > maxDescs) {
+        numDescs = (int)maxDescs;
+    }
+
     for (int i = 0; i < numDescs; i++) {
         bool ack = (i == numDescs - 1);
         emitee_descs *emitee = (emitee_descs *)((uint8_t *)emitHeader + sizeof(*emitHeader) + offsetEmitee);
